@@ -55,6 +55,7 @@ def gen_options(rng):
              bmafd=rng.random() < 0.5, bm_same=rng.random() < 0.4, b_nullable=False, seq_any=rng.random() < 0.3,
              seq_containers=rng.random() < 0.3, aux_first=rng.random() < 0.3,
              decl_order=rng.choice(['top-down', 'top-down', 'bottom-up', 'shuffled']))
+    o['bmafd_left_out'] = o['bmafd'] and rng.random() < 0.5
     if o['delim'] and not o['afd'] and rng.random() < 0.4:
         o['nullable_item'] = True
     if o['bdelim'] and rng.random() < 0.4:
@@ -78,8 +79,9 @@ def mk_prods(o):
         seq_symbols = [AnyTokenExcept('[', ']', '{', '}', ',', ':', '<', '>', ';', '(', ')', '|', '%', '.', '~')] + seq_symbols[2:]
     prods = {
         'E': [('BL2', '|', 'BMAP', '|', 'VALUE', ';', 'OPT_TAIL')],
+        # (when a final delimiter is allowed - the documented default - the option is written out or left out)
         'BMAP': MapProds(None, 'WORD', ':', 'WORD' if o['bm_same'] else 'NUMBER', ',', None,
-                         allow_final_delimiter=o['bmafd']),
+                         **({} if o['bmafd'] and o.get('bmafd_left_out') else {'allow_final_delimiter': o['bmafd']})),
         'OPT_TAIL': [('OLIST', 'OMAP', 'BLIST')],
         'VALUE': [('WORD',), ('NUMBER',), ('LIST',), ('MAP',), ('SEQ_H',), ('MX_H',), ('DS_H',)],
         # a sequence whose terminator is one of its possible elements: "~ a . b ." is [a, '.', b]
